@@ -391,6 +391,57 @@ Theorem C18_quiescent_after_quiet_suffix :
 Proof. exact @quiescent_after_quiet_suffix. Qed.
 Print Assumptions C18_quiescent_after_quiet_suffix.
 
+(** Interleavings and faults INSIDE a pass. [passx a w] is the pass with a schedule [a] that, before the n-th API
+    request of the pass (Get of the template, finalizer patch, per source uncached Get and label patch,
+    Create / Update of the target, status update), lets third parties delete or modify objects and lets the
+    request fail (NotFound, or Conflict / InternalError). For EVERY schedule: whatever such a pass writes
+    is the template rendered with exactly the values it read - per source, in order, the data of the object
+    as found in the cache or as returned by the successful label patch ([rs]); it writes at most once ... *)
+Theorem C18_passx_writes_render_of_reads :
+  forall (code : Type) (render : code -> data -> N -> rres) (scope_of : N -> option bool) (iv_res iv_opt : N)
+         (a : adv) (w0 : world code) (ss : list (step code)) (t : tmpl code) (w' : world code) (r : pres) (rs : list (option data)),
+    let w := final render scope_of ns_escalation iv_res iv_opt w0 ss in
+    w_tmpl w = Some t -> passx render scope_of ns_escalation iv_res iv_opt a w = (w', r, rs) ->
+    forall k d, In (k, d) (target_writes (p_evs r)) ->
+      target_writes (p_evs r) = [(k, d)] /\
+      exists cfg k0 orefs,
+        length rs = length (t_sources t) /\ cfg_of_reads (t_sources t) rs [] = Some cfg /\
+        render (t_code t) cfg (w_env w) = RObj k0 d orefs /\ pf_violation scope_of ns_escalation (t_ns t) k0 orefs = false /\
+        k = eff_key (t_ns t) k0.
+Proof. exact (fun code render scope_of iv_res iv_opt a w0 ss =>
+                @passx_reads code render scope_of iv_res iv_opt a (final render scope_of ns_escalation iv_res iv_opt w0 ss)). Qed.
+Print Assumptions C18_passx_writes_render_of_reads.
+
+(** ... and [cfg_of_reads] exists only if every REQUIRED source was read and labelled in that pass: a required
+    source that vanishes between the lookup and the label patch (or whose requests fail) rules out the write. *)
+Theorem C18_required_sources_were_read :
+  forall (srcs : list source) (rs : list (option data)) (cfg c : data),
+    cfg_of_reads srcs rs cfg = Some c ->
+    forall i s, nth_error srcs i = Some s -> s_opt s = false -> exists d, nth_error rs i = Some (Some d).
+Proof. exact cfg_of_reads_required. Qed.
+Print Assumptions C18_required_sources_were_read.
+
+(** The environment of a render. [w_env] is what the template sees as .environment; [view (w_sink w)] is the
+    environment stored by SetEnvironment amended with the HostedCluster that maps to the template's namespace
+    NOW. Over every history (passes of this template, passes of other templates of the same controller in
+    other namespaces [SAux], passes with faults, environment / HostedCluster changes) the two coincide: a
+    render never depends on what earlier reconciles looked up. *)
+Theorem C18_environment_fresh :
+  forall (code : Type) (render : code -> data -> N -> rres) (scope_of : N -> option bool) (iv_res iv_opt : N)
+         (ss : list (step code)) (w : world code),
+    fresh w -> fresh (final render scope_of ns_escalation iv_res iv_opt w ss).
+Proof. exact @fresh_history. Qed.
+Print Assumptions C18_environment_fresh.
+
+(** What another template of the same controller renders for the HyperShift part of its environment is a
+    function of the sink state now and of ITS namespace, and such a pass leaves the world of this template alone. *)
+Theorem C18_other_template_render :
+  forall (code : Type) (render : code -> data -> N -> rres) (scope_of : N -> option bool) (iv_res iv_opt : N)
+         (w : world code) (ns : N),
+    do_step render scope_of ns_escalation iv_res iv_opt w (SAux ns) = (w, OAux (hval (w_sink w) ns)).
+Proof. exact @aux_render. Qed.
+Print Assumptions C18_other_template_render.
+
 (** Lifting: the observation a history makes at its last step is that step's result in the world the
     prefix leads to; so all clauses above speak about every step of every history. *)
 Theorem C18_history_observation :
